@@ -161,7 +161,9 @@ class Scheduler:
         cands = [l for l, f in self.gates.items() if not f.done() and not l.startswith('pull#') and (not self.freeze_gates)]
         if not cands:
             return
-        label = self.rng.choice(cands)
+        nxt = [l for l in cands if '@next' in l]
+        # (a source step right behind a resolver's completion, or the other way round, is the pair worth favouring)
+        label = self.rng.choice(nxt) if nxt and self.rng.random() < 0.5 else self.rng.choice(cands)
         k = self.rng.randint(0, 14)
 
         def later(n):
